@@ -485,9 +485,9 @@ theorem binaryCliqueFormula_eq (G : SimpleG) (k : Int) (sb : Bool) :
 /-- every code handed to `forbid` is below `2^bits`: the ValueError branch of `forbid` is never taken,
 which is why the model uses the guard-free `forbidC` -/
 theorem forbid_eq_forbidC (st bits i j : Nat) (h : j < 2 ^ bits) :
-    Vars.forbid st bits i j = .ok (forbidC st bits i j) := by
+    Vars.forbid st bits i j = .ok (Fam.G2.forbidC st bits i j) := by
   have : ¬ j ≥ 2 ^ bits := by omega
-  simp [Vars.forbid, forbidC, this]
+  simp [Vars.forbid, Fam.G2.forbidC, this]
 
 /-- specification theorem, through the 0-based code: the formula holds exactly when the vertices
 `code α i + 1` (`i = 1 … k`) form a clique table (increasing with symmetry breaking, ordered without) -/
